@@ -153,6 +153,17 @@ CLAIMED = {
             'After a `get` from a silent device only which commands reach healthy devices is compared, not their payload (it depends '
             'on the unanswered read).',
             'DESIGN.md section 6, C12'),
+    'C16': ('model_checking', 'TLC lexes both texts of every re-layout with Lexer.tla (lock-step) and decides listing identity / name usability / string fidelity rows recorded from the real compiler',
+            'Lexer.tla is the documented token sequence of a text (white space, # comments, H S B K, names, strings, numbers, time '
+            'patterns, operators/braces/brackets without surrounding space). Generated valid scripts are re-laid-out seven ways; TLC '
+            'lexes original and variant in lock-step and, when the token sequences are equal, requires the real compiler to accept '
+            'both with identical instruction listings. Bracketed call statements and braced single values are validated by behaviour '
+            'against Lang.tla. Identifiers (all of length <= 2, a sample up to 8, case variants of every keyword/register, internal '
+            'token-class names) are used as variable, macro, parameter and routine name; string literals over all characters but " '
+            'and line breaks are printed back; TLC decides reservedness/usability from the characters.',
+            'Reserved = documented lower-case keywords, register names, H S B K (plus not, null, breakpoint). Open known finding: '
+            'a string ending in a backslash followed by another quote on the line.',
+            'DESIGN.md section 6, C16'),
 }
 
 REASONS_PENDING = 'check not built yet in this round (planned in DESIGN.md section 6); no claim is made'
